@@ -93,6 +93,15 @@ Fixpoint parse_expr_in (pool : list expr) (fuel : nat) (l : list str) : option (
       else if tk [80;84] t then lst EPartition r
       else if tk [83;69] t then match r with k :: v :: r1 => un (ESetenv k v) r1 | _ => None end
       else if tk [71;69] t then match r with k :: r1 => Some (EGetenv k, r1) | [] => None end
+      else if tk [74] t then sub r                                             (* J e: jitter wrapper = e *)
+      else if tk [66;83] t then                                                (* BS n e: Batch of n times e *)
+        match r with
+        | n :: r1 => match undec n, sub r1 with
+                     | Some k, Some (e, r2) => Some (EBatch (repeat e k), r2)
+                     | _, _ => None
+                     end
+        | [] => None
+        end
       else if tk [66] t then
         match r with
         | n :: r1 => match undec n with
@@ -108,6 +117,10 @@ Fixpoint parse_expr_in (pool : list expr) (fuel : nat) (l : list str) : option (
 
 Definition parse_expr := parse_expr_in [].
 
+(* flags field: contains '1' = case-insensitive matching, contains 'E' = the standard test environment *)
+Definition std_env : list str :=
+  [B [77;79;68;69;61;100;101;102;97;117;108;116]; B [88;61;48]; B [72;79;77;69;61;47;116;109;112]].   (* MODE=default X=0 HOME=/tmp *)
+
 Record algcase := mkAlg { al_ci : bool; al_ctx : ctx; al_e : expr }.
 Definition parse_alg (c : list str) : option algcase :=
   match c with
@@ -117,7 +130,7 @@ Definition parse_alg (c : list str) : option algcase :=
       match f_list r1 with
       | Some (parts, r2) =>
         match parse_expr (S (length r2)) r2 with
-        | Some (e, []) => Some (mkAlg (f_true ci) (mkCtx v args parts []) e)
+        | Some (e, []) => Some (mkAlg (mem (byte 49) ci) (mkCtx v args parts (if mem (byte 69) ci then std_env else [])) e)
         | _ => None
         end
       | None => None
